@@ -621,7 +621,10 @@ class Base64Engine:
         else:
             # NOTE: this assumes ascii-compat encoding, and that
             # all chars used by encoding are 7-bit ascii.
-            last = self._encode64(self._decode64(last) & mask)
+            try:
+                last = self._encode64(self._decode64(last) & mask)
+            except KeyError:
+                raise ValueError(f"invalid character in string: {last!r}") from None
             assert last in padset, "failed to generate valid padding char"
             last = bytes([last])
         return True, source[:-1] + last
